@@ -1,17 +1,22 @@
 #!/usr/bin/env python3
 """Re-runs every seeded change in /verif/seeded against the current checks (no test-suite run; that was done when the change
 was confirmed) and writes seeded/MATRIX.json: {change: {check id: detected?}}.
-usage: tools/final_matrix.py [budget_s]"""
+usage: tools/final_matrix.py [budget_s [change ...]]"""
 import json, os, shutil, subprocess, sys, tempfile, glob
 VERIF = os.path.dirname(os.path.dirname(os.path.abspath(__file__)))
 budget = sys.argv[1] if len(sys.argv) > 1 else "30"
+only = set(sys.argv[2:])          # optional: names of the changes to (re-)evaluate; the others keep their MATRIX.json entry
 CROSS = {"C02-r2-3": ["C04"], "C03-r2-2": ["C11"], "C08-r2-2": ["C09"], "C11-3": ["C04"], "C18-r2-1": ["C03"], "C17-r2-3": ["C09"],
          "C02-r2-2": ["C03"], "C03-3": ["C08"],
          "C02-r3-3": ["C09"], "C03-r3-2": ["C09"], "C03-r3-3": ["C04", "C11"], "C08-r3-3": ["C03"], "C18-r3-2": ["C03"],
          "C11-r3-2": ["C09"], "C09-r3-2": ["C02"]}
 out = {}
+if only:
+    out = json.load(open(os.path.join(VERIF, "seeded", "MATRIX.json")))
 for d in sorted(glob.glob(os.path.join(VERIF, "seeded", "C*"))):
     name = os.path.basename(d)
+    if only and name not in only:
+        continue
     prop = name.split("-")[0]
     scratch = tempfile.mkdtemp(prefix="verif-mx-", dir="/var/tmp")
     try:
